@@ -81,7 +81,8 @@ SPECS = {
   "harnesses": [{"file": "C01_data.cpp", "defines": {"quick": ["-DVH_STEPS=2"], "thorough": ["-DVH_STEPS=3"]},
      "entries": [{"entry": "vh_c01_rw_" + t, "label": "vh_c01_rw_%s.s%d" % (t, sh), "fix": {"shape": sh}, "tiers": (["quick", "thorough"] if t in ("f64", "i32", "u8") else ["thorough"])}
                  for t in ("f64", "f32", "i32", "i64", "u8", "u16", "u64", "i8", "i16", "u32") for sh in range(3)]
-              + [{"entry": "vh_c01_polynomial", "label": "vh_c01_polynomial.r0.n%d.p%d" % (n, pv), "fix": {"regime": 0, "ncoef": n, "prev": pv}} for n in range(3) for pv in range(3)]
+              + [{"entry": "vh_c01_polynomial", "label": "vh_c01_polynomial.r0.n%d.p%d" % (n, pv), "fix": {"regime": 0, "ncoef": n, "prev": pv}} for n in range(3) for pv in range(1, 3)]
+              + [{"entry": "vh_c01_polynomial", "label": "vh_c01_polynomial.r0.n%d.p0.o%d.g%d" % (n, o, g), "fix": {"regime": 0, "ncoef": n, "prev": 0, "o": o, "origin": g}} for n in range(3) for o in range(3) for g in range(2)]
               + [{"entry": "vh_c01_polynomial", "label": "vh_c01_polynomial.r1.n%d.w%d.p%d" % (n, w, pv), "fix": {"regime": 1, "ncoef": n, "symcoef": w, "prev": pv}, "tiers": (["quick", "thorough"] if n < 3 and w == 0 else ["thorough"])} for n in range(1, 4) for w in range(n) for pv in range(3)]
               + [{"entry": e} for e in ("vh_c01_bool_string", "vh_c01_convert", "vh_c01_applypoly_kernel", "vh_c01_chunks")]}]},
  "C15": {
@@ -104,7 +105,8 @@ SPECS = {
   "outside": ["NaN intervals/offsets/ticks", "arrays of other rank/element type for the append histories", "interleavings of alias writes longer than the scripted one"],
   "assumptions": ["libhdf5 replaced by h5model", "unit grammar replaced by an equivalent hand-written matcher"],
   "harnesses": [{"file": "C13_dims.cpp", "defines": {"quick": ["-DVH_STEPS=2"], "thorough": ["-DVH_STEPS=3"]},
-     "entries": [{"entry": "vh_c13_append"}, {"entry": "vh_c13_modify"}, {"entry": "vh_c13_alias"}]}]},
+     "entries": [{"entry": "vh_c13_append", "label": "vh_c13_append.k%d.k%d" % (a, b), "fix": {"kind#0": a, "kind#1": b}} for a in range(5) for b in range(5)]
+               + [{"entry": "vh_c13_modify"}, {"entry": "vh_c13_alias"}]}]},
  "C11": {
   "explanation": "Full stack on the HDF5 model's identifier table: with handles to every entity kind (and copies, a dimension, a DataView) alive or dropped, close() must leave zero open HDF5 identifiers of the file, isOpen() false, a second close a no-op; each of 16 uses of a stale handle must throw without touching or re-opening the file; the path can be truncated and reused afterwards.",
   "bounds": {"live_handles": "all of harness/world.hpp + dimension + DataView, or none; 3 or 70 arrays plus half as many sections held in vectors", "stale_uses": 16},
